@@ -222,7 +222,11 @@ func NTTSparseAndMontgomery(r *ring.Ring, metadata *MetaData, pol ring.Poly) {
 			if metadata.IsNTT {
 				// NTT in dimension n but with roots of N
 				// This is a small hack to perform at reduced cost an NTT of dimension N on a vector in Y = X^{N/n}, i.e. sparse polynomials.
-				NTT(coeffs[:n], coeffs[:n], n, s.Modulus, s.MRedConstant, s.BRedConstant, s.RootsForward)
+				// A single coefficient (one slot in the conjugate-invariant ring) is a
+				// constant polynomial: it evaluates to itself at every root.
+				if n > 1 {
+					NTT(coeffs[:n], coeffs[:n], n, s.Modulus, s.MRedConstant, s.BRedConstant, s.RootsForward)
+				}
 
 				// Maps NTT in dimension n to NTT in dimension N
 				for j := n - 1; j >= 0; j-- {
